@@ -500,6 +500,13 @@ func (p *vPuppet) Unhandle() {
 	}
 }
 
+// Rehandle undoes Unhandle.
+func (p *vPuppet) Rehandle() {
+	for _, proto := range p.protos {
+		p.h.SetStreamHandler(proto, p.handle)
+	}
+}
+
 func (p *vPuppet) shutdown() {
 	p.cancel()
 	p.mu.Lock()
